@@ -743,22 +743,30 @@ def printable_rule(run, ctx):
         c = H.canon(fn["body"])
         X = fn["params"][1].get("name")
         Sb = fn["params"][0].get("name")
-        # path-based: x < 10 -> push the digit; otherwise print x / 10 first, then the last digit
+        # under sample values of x: exactly one path is feasible; it prints x / 10 first (when x >= 10) and then the
+        # last digit -- the arguments are evaluated, so `x`, `x % 10` for x < 10, a hoisted common tail all agree
         good = True
         kinds_ = set()
-        for p in S.paths_of(fn["body"]):
-            pf = S.PathFacts(p.events)
-            small = pf.proves("Lt", X, 10)
-            big = pf.proves("Ge", X, 10)
-            sm_ = S.Summary(p)
-            calls = [c_ for c_ in sm_.calls if c_.startswith("push_usize(") or c_.startswith("%s.push(" % Sb)]
-            if small:
-                good = good and calls == ["%s.push(((b'0' + (%s as u8)) as char))" % (Sb, X)]
-            elif big:
-                good = good and calls == ["push_usize(%s,(%s / 10))" % (Sb, X), "%s.push(((b'0' + ((%s %% 10) as u8)) as char))" % (Sb, X)]
-            else:
+        for x_ in (0, 3, 9, 10, 11, 42, 99, 100, 12345):
+            vals = {X: x_}
+            feas = [p for p in S.paths_of(fn["body"]) if S.consistent(p, vals) is not False]
+            if len(feas) != 1 or S.consistent(feas[0], vals) is not True:
                 good = False
-            kinds_.add(bool(small))
+                break
+            outs = []
+            for ev in feas[0].events:
+                if ev.kind != "call" or ev.node is None:
+                    continue
+                nd = H.peel(ev.node)
+                if nd.get("k") == "Call" and (ev.b or "").endswith("push_usize") and len(nd.get("args") or []) == 2 and H.canon(nd["args"][0]) == Sb:
+                    outs.append(("rec", S.eval_node(nd["args"][1], vals)))
+                elif nd.get("k") == "MethodCall" and nd.get("name") == "push" and H.canon(nd["recv"]) == Sb and len(nd.get("args") or []) == 1:
+                    outs.append(("chr", S.eval_node(nd["args"][0], vals)))
+                elif nd.get("k") == "MethodCall" and H.canon(nd["recv"]) == Sb:
+                    outs.append(("?", nd.get("name")))
+            want = ([("rec", x_ // 10)] if x_ >= 10 else []) + [("chr", 48 + x_ % 10)]
+            good = good and outs == want
+            kinds_.add(x_ < 10)
         if not good or kinds_ != {True, False}:
             run.violation(fam, "push_usize", "shape", H.where(fn), "push_usize must print the decimal digits of x most-significant first, found %s" % c)
         else:
